@@ -201,6 +201,7 @@ pub fn property() -> Property {
     add::<SMVReg>(&mut jobs, "ops+merges", Disc::Any, mixed(), &[], 15000, 150_000, 0.03);
     add::<MapOrswot>(&mut jobs, "ops", Disc::Causal, ops(), &[Class::T4], 15000, 150_000, 0.03);
     add::<MapOrswot>(&mut jobs, "ops+merges", Disc::Causal, mixed(), &[Class::T1, Class::T4], 15000, 150_000, 0.03);
+    add::<MapMapOrswot>(&mut jobs, "ops", Disc::Causal, ops(), &[Class::T4], 12000, 100_000, 0.03);
     add::<MapMVReg>(&mut jobs, "ops", Disc::Causal, ops(), &[Class::T2, Class::T2b], 15000, 150_000, 0.03);
     add::<MapMVReg>(&mut jobs, "ops+merges", Disc::Causal, mixed(), &[Class::T1, Class::T2, Class::T2b, Class::T5], 15000, 150_000, 0.03);
     add::<MapMapMVReg>(&mut jobs, "ops", Disc::Causal, ops(), &[Class::T2, Class::T2b, Class::T4], 12000, 100_000, 0.03);
